@@ -2204,7 +2204,8 @@ def _config_str(
     for (scope, selector), config in configuration_object.items():
       if _REGISTRY[selector].wrapped == macro:  # pylint: disable=comparison-with-callable
         # As for parameters: omit values that have no literal representation.
-        if _is_literally_representable(config['value']):
+        # (A macro used while unbound is recorded without a value.)
+        if 'value' in config and _is_literally_representable(config['value']):
           macros[scope, selector] = config
     if macros:
       formatted_statements.append('# Macros:')
